@@ -29,7 +29,7 @@ def gen_kw(rng, voc, p_tag):
     if voc.delete: choices += [{'del': True}, {'del': False}, {'del': True}]
     if voc.new: choices += [{'new': True}]
     if voc.notnew: choices += [{'new': False}]
-    if voc.unsafe: choices += [{'safe': False}]
+    if voc.unsafe: choices += [{'safe': False}, {'safe': False}, {'safe': True}]
     if voc.meta: choices += [{'md': [['m' + str(rng.randrange(3)), rng.choice([1, 'v', None, True])]]}]
     if not choices:
         return {}
